@@ -1,6 +1,18 @@
 #include <dsplib/math.h>
 #include <array>
 
+#ifdef DSPLIB_VERIF
+#include <dsplib/verif_hooks.h>
+namespace dsplib {
+namespace verif {
+thread_local unsigned long long trial_divisions = 0;
+}   // namespace verif
+}   // namespace dsplib
+#define DSPLIB_VERIF_COUNT_DIV() (++::dsplib::verif::trial_divisions)
+#else
+#define DSPLIB_VERIF_COUNT_DIV()
+#endif
+
 namespace dsplib {
 
 namespace {
@@ -44,6 +56,7 @@ private:
             if (d * d > n) {
                 break;
             }
+            DSPLIB_VERIF_COUNT_DIV();
             if (n % d == 0) {
                 return false;
             }
@@ -96,6 +109,7 @@ bool isprime(uint32_t n) noexcept {
     PrimesGenerator gen;
     auto d = gen.current();
     while (d * d <= n) {
+        DSPLIB_VERIF_COUNT_DIV();
         if (n % d == 0) {
             return false;
         }
@@ -114,7 +128,9 @@ arr_int factor(uint32_t n) {
     PrimesGenerator gen;
     uint32_t d = gen.current();
     while (d * d <= n) {
+        DSPLIB_VERIF_COUNT_DIV();
         while (n % d == 0) {
+            DSPLIB_VERIF_COUNT_DIV();
             n /= d;
             res.push_back(d);
         }
